@@ -42,13 +42,16 @@ vlib.standard_check({
     "nontrivial": lambda t: t.get("spec_checks", 0) + t.get("xsound_checks", 0),
     "rule": "every case builds operators through the real frontend (Bit/UInt/SInt/BVec) on input pins or literals, widths from "
             "{0,1,2,3,7,8,31,32,33,63,64,65,127,128,129,191,200} ∪ uniform 0..200, operand values {0,1,all-ones,2^(w-1),2^(w-1)-1,small,random} "
-            "with none/few/many/all bits undefined; modes: op (one operator), dag/dags (expression DAGs, depth ≤ 6, wide / narrow), const (literal "
+            "with none/few/many/all bits undefined; modes: op (one operator), dag/dags (expression DAGs, depth ≤ 6, wide / narrow, including IF (sel == k) and IF (c) "
+            "assignment chains with repeated k and tapped intermediate values; one case in three is simulated again after design.postprocess() on the same "
+            "stimuli and every tapped expression compared with the value of the design as constructed), const (literal "
             "operands: construction-time vs run-time evaluation), lit (literal parsing). Evaluations = node evaluations + frontend-operator "
             "evaluations re-computed by the Lean model; non-trivial = comparisons of the simulator's result with the mathematical definition "
             "(fully defined operands: equality; partially undefined operands: every defined result bit against 3 concretisations).",
     "extra_cov": lambda t: {"node_kinds": t.get("node_kinds", {}), "operators": t.get("hist", {}), "result_widths": t.get("widths", {}),
                             "operand_definedness": t.get("definedness", {}), "unsafe_cases_not_simulated": t.get("unsafe_cases", 0),
-                            "crashes_of_code_under_test": t.get("crash_cases", 0), "frontend_rejections": t.get("error_cases", 0)},
+                            "crashes_of_code_under_test": t.get("crash_cases", 0), "post_processed_runs": t.get("post_processed_runs", 0),
+                            "post_processed_values_compared": t.get("post_processed_values", 0), "frontend_rejections": t.get("error_cases", 0)},
     "trusted_base": ["Lean 4.33 kernel", "axioms: propext, Classical.choice, Quot.sound only (audited per theorem)",
                      "C03/Spec.lean (the definitions on Nat / Int / bit lists)",
                      "harness/c03.cpp netlist dump + Driver/Nodes*.lean line protocol (correspondence on generated cases, not proved)",
